@@ -19,7 +19,7 @@ def main():
     a = ap.parse_args()
     os.chdir(vlib.VERIF)
     mod = importlib.import_module('props.' + a.pid)
-    ctx = vlib.Ctx(a.pid, a.tier, a.seed, a.keep or bool(a.replay))
+    ctx = vlib.Ctx(a.pid, a.tier, a.seed, a.keep or bool(a.replay), replaying=bool(a.replay))
     if a.replay:
         rp = json.load(open(a.replay))
         return mod.replay(ctx, rp) if hasattr(mod, 'replay') else generic_replay(ctx, mod, rp)
